@@ -246,6 +246,32 @@ def run_case(case, tier):
             line_injection(True, case["seed"])
         expected = {}   # (cycle, dsname) -> [bytes(header)+bytes(data)]
         for cyc, steps in enumerate(sc["cycles"]):
+            if case.get("n", 0) % 5 == 3:
+                # a start that is refused (the files of that run number exist already), traffic while nothing is being
+                # recorded, then the operator picks another run number and starts again
+                md.update(json.dumps({"cycle": 1000 + cyc}))
+                dc.start()
+                dc.stop()
+                for d in sc["datasets"]:
+                    expected[(1000 + cyc, d["name"])] = []
+                refused = False
+                try:
+                    dc.start()
+                except Exception:
+                    refused = True
+                if refused:
+                    C["refused_starts"] = C.get("refused_starts", 0) + 1
+                    for k_ in range(3):
+                        uid[0] += 1
+                        cls = get_msg_cls(62)
+                        data = cls()
+                        data.timestamp = float(uid[0])
+                        h = H()
+                        h.msg_type, h.msg_count, h.send_time, h.src_mod_id = 62, uid[0], 1.0 + uid[0] / 8.0, 10
+                        h.num_data_bytes, h.version = cls.type_size, cls.type_hash
+                        dc.update(Message(h, data))      # not recording: must leave no trace anywhere
+                else:
+                    dc.stop()
             md.update(json.dumps({"cycle": cyc}))
             dc.start()
             recording, paused = True, False
